@@ -479,16 +479,28 @@ def generate(tier, rng):
                     yield {'kind': 'line', 'fn': 'deep_lift_shap', 'target': 'deep_lift_shap', 'line': line,
                            'k': k, 'variant': v, 'train': train}
     # ---- line-level crash points in every other API function (first visits)
-    helper_driver = {'_apply': ['apply_product', 'apply_pairwise']}
     for name in [f['name'] for f in fns() if f['name'] != 'deep_lift_shap']:
-        for drv in helper_driver.get(name, [name]):
-            if drv not in drivers():
-                raise RuntimeError('no driver exercises API helper %s; add one to harness/c07.py' % name)
-            counts, rl = visit_counts(drv, name, None, True)
+        # a function with its own driver is driven directly; a private helper that takes the model
+        # (e.g. product._apply, or one introduced by a refactoring) is driven through every driver
+        # that executes it
+        cands = [name] if name in drivers() else list(drivers())
+        used = 0
+        for drv in cands:
+            try:
+                counts, rl = visit_counts(drv, name, None, True)
+            except Exception:
+                continue
+            if not counts:
+                continue
+            used += 1
             for line in sorted(counts):
                 if line in rl:
                     for k in range(1, min(counts[line], 2 if quick else 6) + 1):
                         yield {'kind': 'line', 'fn': drv, 'target': name, 'line': line, 'k': k, 'train': True}
+            if used >= 3:
+                break
+        if used == 0:
+            raise RuntimeError('no driver executes API helper %s; add one to harness/c07.py' % name)
     # wrappers whose func is deep_lift_shap: crash inside the callee's loop
     for name in ('marginalize_dls', 'ablate_dls'):
         counts, rl = visit_counts(name, 'deep_lift_shap', None, False)
